@@ -33,7 +33,7 @@ pub fn op1(op: &Op1, inp: &Seq) -> Option<Seq> {
     Op1::FilterMap(p) => {
       pass(xs.iter().filter(|v| p.ev(v)).cloned().map(inc).collect())
     }
-    Op1::Tap | Op1::BoxIt => pass(xs.clone()),
+    Op1::Tap | Op1::BoxIt | Op1::Timestamp => pass(xs.clone()),
     Op1::Take(n) => {
       if *n == 0 {
         // documented only for inputs that complete
